@@ -31,6 +31,37 @@ def cached_checker_sequence(w: dict) -> list:
     return out
 
 
+def http_hints(w: dict) -> list:
+    """one response body served with a content type / URL, the response object offering its own `.json()` as every real
+    `requests.Response` does: [what HTTPPolicySource.load() delivers, what parse_policy_text makes of the same text under the same hints]"""
+    import sys
+    import types
+    from rbacx.store.http_store import HTTPPolicySource
+    from rbacx.store.policy_loader import parse_policy_text
+
+    class Resp:
+        status_code = 200
+        headers = {"Content-Type": w["content_type"]} if w.get("content_type") else {}
+        text = w["text"]
+
+        def json(self):
+            return json.loads(w["text"])
+
+        def raise_for_status(self):
+            return None
+    fake = types.ModuleType("requests")
+    fake.get = lambda *a, **k: Resp()
+    saved = sys.modules.get("requests")
+    sys.modules["requests"] = fake
+    try:
+        return [HTTPPolicySource(w["url"]).load(), parse_policy_text(w["text"], filename=w["url"], content_type=w.get("content_type"))]
+    finally:
+        if saved is not None:
+            sys.modules["requests"] = saved
+        else:
+            sys.modules.pop("requests", None)
+
+
 def replay_fixed(run: lib.Run, ids: list[str]) -> list[tuple[str, bool]]:
     """returns violations [(replay_path, True)] for every listed fixed finding that reproduces"""
     corpus = json.load(open(os.path.join(lib.VERIF, "corpus", "fixed.json")))
@@ -40,6 +71,9 @@ def replay_fixed(run: lib.Run, ids: list[str]) -> list[tuple[str, bool]]:
         if w.get("kind") == "cached-checker-sequence":
             res = cached_checker_sequence(w)
             ok = res == w["expect"]
+        elif w.get("kind") == "http-hints":
+            res = http_hints(w)
+            ok = res[0] == res[1]
         else:
             res = real.run_guard(w["policy"], w["request"], w.get("cfg") or {})
             ok = "ok" in res and all(res["ok"][k] == v for k, v in w["expect"].items())
